@@ -164,17 +164,17 @@ func (n *node) start(snapshot []byte) {
 	go func() {
 		var err error
 		defer func() {
+			// Handle panic in runF.
+			// When runF panics err has not been assigned, so recover first.
+			if r := recover(); r != nil {
+				trace := make([]byte, 512)
+				n := runtime.Stack(trace, false)
+				err = fmt.Errorf("%v: Trace:%s", r, string(trace[:n]))
+			}
 			// Always close children edges
 			n.closeChildEdges()
 			// Propagate error up
 			if err != nil {
-				// Handle panic in runF
-				r := recover()
-				if r != nil {
-					trace := make([]byte, 512)
-					n := runtime.Stack(trace, false)
-					err = fmt.Errorf("%s: Trace:%s", r, string(trace[:n]))
-				}
 				n.abortParentEdges()
 				n.diag.Error("node failed", err)
 
